@@ -297,6 +297,11 @@ def _heartbeat(chk, repo, folder, sc):
         return True
 
     def uses_ok(expr, node, what, where):
+        frame = f.params[2] if len(f.params) > 2 else "data"
+        if any(isinstance(n, ast.Name) and n.id == frame for n in ast.walk(expr)):
+            chk.bad("R5", f"{NMT}:NmtMaster.on_heartbeat | {what}", where,
+                    f"`{src(expr)}` looks at the frame byte itself, without the 0x7F mask: the toggle bit is not ignored (0x80 is a boot-up message as well)")
+            return False
         for nm in {n.id for n in ast.walk(expr) if isinstance(n, ast.Name)}:
             if nm in raw_vars or any(isinstance(d, (ast.AugAssign, ast.Assign)) for d in rd.defs_at(node, nm) if d is not None):
                 derived = nm in raw_vars or True
